@@ -7,6 +7,7 @@ CONSTANTS
  Variants <- A_one
  NaiveMaxP = 13
  NaiveVariants <- D_one
+ AccMaxP = 1000
  NbrMaxP = 47
  NbrVariants <- N_one
  Mode = "nbr"
